@@ -1250,6 +1250,413 @@ theorem a2s_error_resets (chk : Bool) (s : Option (A2sU0 F)) (x : Err) :
     A2s.step chk s (.error x) = .ok (none, .error x) ∧ A2s.get chk (none : Option (A2sU0 F)) = .ok (.ok none) :=
   ⟨rfl, rfl⟩
 
+/-! ### VelocityToState -/
+/-- NON-incremental specification (newest-first run): absent for fewer than two samples; otherwise velocity = newest
+sample, acceleration = backward difference quotient of the last two samples, position = running trapezoid sum -/
+def v2sSpecRev (chk : Bool) : List (Datum (Quantity F)) → Except Panic (Option (StateSpec F))
+  | [] => .ok none
+  | [_] => .ok none
+  | o :: p :: rest =>
+    match trapRunRev chk (o :: p :: rest) with
+    | .error e => .error e
+    | .ok none => .ok none
+    | .ok (some pos) =>
+      match Quantity.sub chk o.value p.value with
+      | .error e => .error e
+      | .ok dv => .ok (some ⟨o.time, pos, o.value, Quantity.div chk dv (Quantity.ofTime chk (o.time - p.time))⟩)
+
+def v2sSpec (chk : Bool) (run : List (Datum (Quantity F))) : Except Panic (Option (StateSpec F)) :=
+  v2sSpecRev chk run.reverse
+
+def V2sInv (chk : Bool) (s : Option (V2sU0 F)) : List (Datum (Quantity F)) → Prop
+  | [] => s = none
+  | [o] => s = some ⟨o.time, o.value, none⟩
+  | o :: p :: rest => ∃ pos dv, trapRunRev chk (o :: p :: rest) = .ok (some pos) ∧
+      Quantity.sub chk o.value p.value = .ok dv ∧
+      s = some ⟨o.time, o.value, some ⟨Quantity.div chk dv (Quantity.ofTime chk (o.time - p.time)), pos⟩⟩
+
+theorem v2s_step_inv (chk : Bool) (s s' : Option (V2sU0 F)) (rr : List (Datum (Quantity F)))
+    (d : Datum (Quantity F)) (r : UpdRet) (hinv : V2sInv chk s rr)
+    (h : V2s.step chk s (.ok (some d)) = .ok (s', r)) : V2sInv chk s' (d :: rr) := by
+  simp only [V2s.step] at h
+  cases ha : DUnit.assertEqAssumeOk chk d.value.unit (MILLIMETER_PER_SECOND chk) with
+  | error e => rw [ha] at h; cases h
+  | ok _ =>
+    rw [ha] at h; simp only at h
+    match rr, hinv with
+    | [], hinv =>
+      simp only [V2sInv] at hinv; subst hinv
+      simp only [Except.ok.injEq, Prod.mk.injEq] at h
+      exact h.1.symm
+    | [p], hinv =>
+      simp only [V2sInv] at hinv; subst hinv
+      simp only at h
+      cases hsub : Quantity.sub chk d.value p.value with
+      | error e => rw [hsub] at h; cases h
+      | ok dv =>
+        rw [hsub] at h; simp only at h
+        cases hq : qHalfTimes chk p.value d.value (Quantity.ofTime chk (d.time - p.time)) with
+        | error e => rw [hq] at h; cases h
+        | ok posAddend =>
+          rw [hq] at h
+          simp only [Except.ok.injEq, Prod.mk.injEq] at h
+          refine ⟨posAddend, dv, ?_, rfl, h.1.symm⟩
+          simp only [trapRunRev, hq]
+    | p :: q :: rest, hinv =>
+      obtain ⟨pos, dv0, hpos, _, hs⟩ := hinv
+      subst hs
+      simp only at h
+      cases hsub : Quantity.sub chk d.value p.value with
+      | error e => rw [hsub] at h; cases h
+      | ok dv =>
+        rw [hsub] at h; simp only at h
+        cases hq : qHalfTimes chk p.value d.value (Quantity.ofTime chk (d.time - p.time)) with
+        | error e => rw [hq] at h; cases h
+        | ok posAddend =>
+          rw [hq] at h; simp only at h
+          cases hadd : Quantity.add chk pos posAddend with
+          | error e => rw [hadd] at h; cases h
+          | ok np =>
+            rw [hadd] at h
+            simp only [Except.ok.injEq, Prod.mk.injEq] at h
+            refine ⟨np, dv, ?_, rfl, h.1.symm⟩
+            rw [trapRunRev, hpos]; simp only [hq, hadd]
+
+theorem v2s_run_inv (chk : Bool) (evs : List (Output (Quantity F))) (s : Option (V2sU0 F))
+    (h : runE (V2s.step chk) V2s.init evs = .ok s) : V2sInv chk s (rrunIgn evs) := by
+  induction evs using snoc_induction generalizing s with
+  | nil => simp only [runE, Except.ok.injEq] at h; subst h; rfl
+  | snoc l e ih =>
+    cases hl : runE (V2s.step chk) V2s.init l with
+    | error p => rw [runE_snoc_error _ _ _ _ _ hl] at h; cases h
+    | ok s0 =>
+      rw [runE_snoc_ok _ _ _ _ _ hl] at h
+      have ih' := ih s0 hl
+      match e with
+      | .error x =>
+        simp only [V2s.step, Except.ok.injEq] at h; subst h
+        simp [V2sInv]
+      | .ok none =>
+        simp only [V2s.step, Except.ok.injEq] at h; subst h
+        simpa using ih'
+      | .ok (some d) =>
+        cases hst : V2s.step chk s0 (.ok (some d)) with
+        | error p => rw [hst] at h; cases h
+        | ok sr =>
+          cases sr with
+          | mk s1 r =>
+            rw [hst] at h; simp only [Except.ok.injEq] at h; subst h
+            rw [rrunIgn_snoc_present]
+            exact v2s_step_inv chk s0 s1 _ d r ih' hst
+
+/-- **VelocityToState = its specification** -/
+theorem v2s_eq_spec (chk : Bool) (evs : List (Output (Quantity F))) (s : Option (V2sU0 F))
+    (h : runE (V2s.step chk) V2s.init evs = .ok s) :
+    ∃ r, v2sSpec chk (lastRunIgnoringAbsent evs) = .ok r ∧ V2s.get chk s = stateOut chk r := by
+  have hinv := v2s_run_inv chk evs s h
+  simp only [v2sSpec, lastRunIgnoringAbsent, List.reverse_reverse]
+  match hrr : rrunIgn evs, hinv with
+  | [], hinv => simp only [V2sInv] at hinv; subst hinv; exact ⟨none, rfl, rfl⟩
+  | [o], hinv => simp only [V2sInv] at hinv; subst hinv; exact ⟨none, rfl, rfl⟩
+  | o :: p :: rest, hinv =>
+    obtain ⟨pos, dv, hpos, hsub, hs⟩ := hinv
+    subst hs
+    simp only [v2sSpecRev, hpos, hsub]
+    exact ⟨_, rfl, rfl⟩
+
+theorem v2sSpec_short (chk : Bool) (run : List (Datum (Quantity F))) (r : Option (StateSpec F))
+    (hlen : run.length < 2) (h : v2sSpec chk run = .ok r) : r = none := by
+  unfold v2sSpec at h
+  rw [← List.length_reverse] at hlen
+  match hrr : run.reverse with
+  | [] => rw [hrr] at h; cases h; rfl
+  | [o] => rw [hrr] at h; cases h; rfl
+  | o :: p :: rest => rw [hrr] at hlen; simp at hlen; omega
+
+theorem v2sSpec_long (chk : Bool) (run : List (Datum (Quantity F))) (r : Option (StateSpec F))
+    (hlen : 2 ≤ run.length) (h : v2sSpec chk run = .ok r) : ∃ sp, r = some sp := by
+  unfold v2sSpec at h
+  rw [← List.length_reverse] at hlen
+  match hrr : run.reverse with
+  | [] => rw [hrr] at hlen; simp at hlen
+  | [o] => rw [hrr] at hlen; simp at hlen
+  | o :: p :: rest =>
+    rw [hrr, v2sSpecRev] at h
+    split at h
+    · cases h
+    · next hv => obtain ⟨_, hx⟩ := trapRunRev_some chk o p rest _ hv; cases hx
+    · split at h
+      · cases h
+      · cases h; exact ⟨_, rfl⟩
+
+theorem v2sSpec_time_newest (chk : Bool) (run : List (Datum (Quantity F))) (sp : StateSpec F)
+    (h : v2sSpec chk run = .ok (some sp)) :
+    ∃ dn, run.getLast? = some dn ∧ sp.time = dn.time ∧ sp.vel = dn.value := by
+  unfold v2sSpec at h
+  rw [← List.head?_reverse]
+  match hrr : run.reverse with
+  | [] => rw [hrr] at h; cases h
+  | [o] => rw [hrr] at h; cases h
+  | o :: p :: rest =>
+    rw [hrr, v2sSpecRev] at h
+    refine ⟨o, rfl, ?_⟩
+    split at h
+    · cases h
+    · cases h
+    · split at h
+      · cases h
+      · cases h; exact ⟨rfl, rfl⟩
+
+/-- **absent until two samples since the last error** -/
+theorem v2s_absent_until (chk : Bool) (evs : List (Output (Quantity F))) (s : Option (V2sU0 F))
+    (h : runE (V2s.step chk) V2s.init evs = .ok s) (hlen : (lastRunIgnoringAbsent evs).length < 2) :
+    V2s.get chk s = .ok (.ok none) := by
+  obtain ⟨r, hr, hg⟩ := v2s_eq_spec chk evs s h
+  rw [hg, v2sSpec_short chk _ r hlen hr]; rfl
+
+theorem v2s_time_newest (chk : Bool) (evs : List (Output (Quantity F))) (s : Option (V2sU0 F))
+    (h : runE (V2s.step chk) V2s.init evs = .ok s) (d : Datum (State F))
+    (hg : V2s.get chk s = .ok (.ok (some d))) :
+    ∃ dn, (lastRunIgnoringAbsent evs).getLast? = some dn ∧ d.time = dn.time := by
+  obtain ⟨r, hr, hg'⟩ := v2s_eq_spec chk evs s h
+  rw [hg] at hg'
+  cases r with
+  | none => cases hg'
+  | some sp =>
+    obtain ⟨dn, h1, h2, _⟩ := v2sSpec_time_newest chk _ sp hr
+    refine ⟨dn, h1, ?_⟩
+    simp only [stateOut] at hg'
+    split at hg'
+    · cases hg'
+    · cases hg'; exact h2
+
+theorem v2s_update_ret (chk : Bool) (s s' : Option (V2sU0 F)) (e : Output (Quantity F)) (r : UpdRet)
+    (h : V2s.step chk s e = .ok (s', r)) : r = updRetOf e := by
+  revert h
+  match e with
+  | .error x => intro h; simp only [V2s.step, Except.ok.injEq, Prod.mk.injEq] at h; exact h.2.symm
+  | .ok none => intro h; simp only [V2s.step, Except.ok.injEq, Prod.mk.injEq] at h; exact h.2.symm
+  | .ok (some d) =>
+    intro h
+    simp only [V2s.step] at h
+    repeat' split at h
+    all_goals (cases h <;> rfl)
+
+theorem v2s_error_resets (chk : Bool) (s : Option (V2sU0 F)) (x : Err) :
+    V2s.step chk s (.error x) = .ok (none, .error x) ∧ V2s.get chk (none : Option (V2sU0 F)) = .ok (.ok none) :=
+  ⟨rfl, rfl⟩
+
+/-! ### PositionToState -/
+/-- backward difference quotient of two samples -/
+def backdiffQ (chk : Bool) (o p : Datum (Quantity F)) : Except Panic (Quantity F) :=
+  match Quantity.sub chk o.value p.value with
+  | .error e => .error e
+  | .ok dp => .ok (Quantity.div chk dp (Quantity.ofTime chk (o.time - p.time)))
+
+/-- NON-incremental specification (newest-first run `o, p, q, …`): absent for fewer than three samples; position =
+newest sample, velocity = backward difference of the last two samples, acceleration = (that velocity − the previous
+backward-difference velocity) / ofTime(o.time − p.time) -/
+def p2sSpecRev (chk : Bool) : List (Datum (Quantity F)) → Except Panic (Option (StateSpec F))
+  | [] => .ok none
+  | [_] => .ok none
+  | [_, _] => .ok none
+  | o :: p :: q :: _ =>
+    match backdiffQ chk p q with
+    | .error e => .error e
+    | .ok v0 =>
+      match backdiffQ chk o p with
+      | .error e => .error e
+      | .ok v1 =>
+        match Quantity.sub chk v1 v0 with
+        | .error e => .error e
+        | .ok dv => .ok (some ⟨o.time, o.value, v1, Quantity.div chk dv (Quantity.ofTime chk (o.time - p.time))⟩)
+
+def p2sSpec (chk : Bool) (run : List (Datum (Quantity F))) : Except Panic (Option (StateSpec F)) :=
+  p2sSpecRev chk run.reverse
+
+def P2sInv (chk : Bool) (s : Option (P2sU0 F)) : List (Datum (Quantity F)) → Prop
+  | [] => s = none
+  | [o] => s = some ⟨o.time, o.value, none⟩
+  | [o, p] => ∃ v1, backdiffQ chk o p = .ok v1 ∧ s = some ⟨o.time, o.value, some ⟨v1, none⟩⟩
+  | o :: p :: q :: _ => ∃ v0 v1 dv, backdiffQ chk p q = .ok v0 ∧ backdiffQ chk o p = .ok v1 ∧
+      Quantity.sub chk v1 v0 = .ok dv ∧
+      s = some ⟨o.time, o.value, some ⟨v1, some (Quantity.div chk dv (Quantity.ofTime chk (o.time - p.time)))⟩⟩
+
+theorem p2s_step_inv (chk : Bool) (s s' : Option (P2sU0 F)) (rr : List (Datum (Quantity F)))
+    (d : Datum (Quantity F)) (r : UpdRet) (hinv : P2sInv chk s rr)
+    (h : P2s.step chk s (.ok (some d)) = .ok (s', r)) : P2sInv chk s' (d :: rr) := by
+  simp only [P2s.step] at h
+  cases ha : DUnit.assertEqAssumeOk chk d.value.unit (MILLIMETER chk) with
+  | error e => rw [ha] at h; cases h
+  | ok _ =>
+    rw [ha] at h; simp only at h
+    match rr, hinv with
+    | [], hinv =>
+      simp only [P2sInv] at hinv; subst hinv
+      simp only [Except.ok.injEq, Prod.mk.injEq] at h
+      exact h.1.symm
+    | [p], hinv =>
+      simp only [P2sInv] at hinv; subst hinv
+      simp only at h
+      cases hsub : Quantity.sub chk d.value p.value with
+      | error e => rw [hsub] at h; cases h
+      | ok dp =>
+        rw [hsub] at h
+        simp only [Except.ok.injEq, Prod.mk.injEq] at h
+        exact ⟨_, by simp only [backdiffQ, hsub], h.1.symm⟩
+    | [p, q], hinv =>
+      obtain ⟨v0, hv0, hs⟩ := hinv
+      subst hs
+      simp only at h
+      cases hsub : Quantity.sub chk d.value p.value with
+      | error e => rw [hsub] at h; cases h
+      | ok dp =>
+        rw [hsub] at h; simp only at h
+        cases hsub2 : Quantity.sub chk (Quantity.div chk dp (Quantity.ofTime chk (d.time - p.time))) v0 with
+        | error e => rw [hsub2] at h; cases h
+        | ok dv =>
+          rw [hsub2] at h
+          simp only [Except.ok.injEq, Prod.mk.injEq] at h
+          exact ⟨v0, _, dv, hv0, by simp only [backdiffQ, hsub], hsub2, h.1.symm⟩
+    | p :: q :: q' :: rest, hinv =>
+      obtain ⟨_, v0, _, _, hv0, _, hs⟩ := hinv
+      subst hs
+      simp only at h
+      cases hsub : Quantity.sub chk d.value p.value with
+      | error e => rw [hsub] at h; cases h
+      | ok dp =>
+        rw [hsub] at h; simp only at h
+        cases hsub2 : Quantity.sub chk (Quantity.div chk dp (Quantity.ofTime chk (d.time - p.time))) v0 with
+        | error e => rw [hsub2] at h; cases h
+        | ok dv =>
+          rw [hsub2] at h
+          simp only [Except.ok.injEq, Prod.mk.injEq] at h
+          exact ⟨v0, _, dv, hv0, by simp only [backdiffQ, hsub], hsub2, h.1.symm⟩
+
+theorem p2s_run_inv (chk : Bool) (evs : List (Output (Quantity F))) (s : Option (P2sU0 F))
+    (h : runE (P2s.step chk) P2s.init evs = .ok s) : P2sInv chk s (rrunIgn evs) := by
+  induction evs using snoc_induction generalizing s with
+  | nil => simp only [runE, Except.ok.injEq] at h; subst h; rfl
+  | snoc l e ih =>
+    cases hl : runE (P2s.step chk) P2s.init l with
+    | error p => rw [runE_snoc_error _ _ _ _ _ hl] at h; cases h
+    | ok s0 =>
+      rw [runE_snoc_ok _ _ _ _ _ hl] at h
+      have ih' := ih s0 hl
+      match e with
+      | .error x =>
+        simp only [P2s.step, Except.ok.injEq] at h; subst h
+        simp [P2sInv]
+      | .ok none =>
+        simp only [P2s.step, Except.ok.injEq] at h; subst h
+        simpa using ih'
+      | .ok (some d) =>
+        cases hst : P2s.step chk s0 (.ok (some d)) with
+        | error p => rw [hst] at h; cases h
+        | ok sr =>
+          cases sr with
+          | mk s1 r =>
+            rw [hst] at h; simp only [Except.ok.injEq] at h; subst h
+            rw [rrunIgn_snoc_present]
+            exact p2s_step_inv chk s0 s1 _ d r ih' hst
+
+/-- **PositionToState = its specification** -/
+theorem p2s_eq_spec (chk : Bool) (evs : List (Output (Quantity F))) (s : Option (P2sU0 F))
+    (h : runE (P2s.step chk) P2s.init evs = .ok s) :
+    ∃ r, p2sSpec chk (lastRunIgnoringAbsent evs) = .ok r ∧ P2s.get chk s = stateOut chk r := by
+  have hinv := p2s_run_inv chk evs s h
+  simp only [p2sSpec, lastRunIgnoringAbsent, List.reverse_reverse]
+  match hrr : rrunIgn evs, hinv with
+  | [], hinv => simp only [P2sInv] at hinv; subst hinv; exact ⟨none, rfl, rfl⟩
+  | [o], hinv => simp only [P2sInv] at hinv; subst hinv; exact ⟨none, rfl, rfl⟩
+  | [o, p], hinv => obtain ⟨v1, _, hs⟩ := hinv; subst hs; exact ⟨none, rfl, rfl⟩
+  | o :: p :: q :: rest, hinv =>
+    obtain ⟨v0, v1, dv, hv0, hv1, hsub, hs⟩ := hinv
+    subst hs
+    simp only [p2sSpecRev, hv0, hv1, hsub]
+    exact ⟨_, rfl, rfl⟩
+
+theorem p2sSpec_short (chk : Bool) (run : List (Datum (Quantity F))) (r : Option (StateSpec F))
+    (hlen : run.length < 3) (h : p2sSpec chk run = .ok r) : r = none := by
+  unfold p2sSpec at h
+  rw [← List.length_reverse] at hlen
+  match hrr : run.reverse with
+  | [] => rw [hrr] at h; cases h; rfl
+  | [o] => rw [hrr] at h; cases h; rfl
+  | [o, p] => rw [hrr] at h; cases h; rfl
+  | o :: p :: q :: rest => rw [hrr] at hlen; simp at hlen; omega
+
+theorem p2sSpec_long (chk : Bool) (run : List (Datum (Quantity F))) (r : Option (StateSpec F))
+    (hlen : 3 ≤ run.length) (h : p2sSpec chk run = .ok r) : ∃ sp, r = some sp := by
+  unfold p2sSpec at h
+  rw [← List.length_reverse] at hlen
+  match hrr : run.reverse with
+  | [] => rw [hrr] at hlen; simp at hlen
+  | [o] => rw [hrr] at hlen; simp at hlen
+  | [o, p] => rw [hrr] at hlen; simp at hlen
+  | o :: p :: q :: rest =>
+    rw [hrr, p2sSpecRev] at h
+    repeat' split at h
+    all_goals first
+      | cases h
+      | (cases h; exact ⟨_, rfl⟩)
+
+theorem p2sSpec_time_newest (chk : Bool) (run : List (Datum (Quantity F))) (sp : StateSpec F)
+    (h : p2sSpec chk run = .ok (some sp)) :
+    ∃ dn, run.getLast? = some dn ∧ sp.time = dn.time ∧ sp.pos = dn.value := by
+  unfold p2sSpec at h
+  rw [← List.head?_reverse]
+  match hrr : run.reverse with
+  | [] => rw [hrr] at h; cases h
+  | [o] => rw [hrr] at h; cases h
+  | [o, p] => rw [hrr] at h; cases h
+  | o :: p :: q :: rest =>
+    rw [hrr, p2sSpecRev] at h
+    refine ⟨o, rfl, ?_⟩
+    repeat' split at h
+    all_goals first
+      | cases h
+      | (cases h; exact ⟨rfl, rfl⟩)
+
+/-- **absent until three samples since the last error** -/
+theorem p2s_absent_until (chk : Bool) (evs : List (Output (Quantity F))) (s : Option (P2sU0 F))
+    (h : runE (P2s.step chk) P2s.init evs = .ok s) (hlen : (lastRunIgnoringAbsent evs).length < 3) :
+    P2s.get chk s = .ok (.ok none) := by
+  obtain ⟨r, hr, hg⟩ := p2s_eq_spec chk evs s h
+  rw [hg, p2sSpec_short chk _ r hlen hr]; rfl
+
+theorem p2s_time_newest (chk : Bool) (evs : List (Output (Quantity F))) (s : Option (P2sU0 F))
+    (h : runE (P2s.step chk) P2s.init evs = .ok s) (d : Datum (State F))
+    (hg : P2s.get chk s = .ok (.ok (some d))) :
+    ∃ dn, (lastRunIgnoringAbsent evs).getLast? = some dn ∧ d.time = dn.time := by
+  obtain ⟨r, hr, hg'⟩ := p2s_eq_spec chk evs s h
+  rw [hg] at hg'
+  cases r with
+  | none => cases hg'
+  | some sp =>
+    obtain ⟨dn, h1, h2, _⟩ := p2sSpec_time_newest chk _ sp hr
+    refine ⟨dn, h1, ?_⟩
+    simp only [stateOut] at hg'
+    split at hg'
+    · cases hg'
+    · cases hg'; exact h2
+
+theorem p2s_update_ret (chk : Bool) (s s' : Option (P2sU0 F)) (e : Output (Quantity F)) (r : UpdRet)
+    (h : P2s.step chk s e = .ok (s', r)) : r = updRetOf e := by
+  revert h
+  match e with
+  | .error x => intro h; simp only [P2s.step, Except.ok.injEq, Prod.mk.injEq] at h; exact h.2.symm
+  | .ok none => intro h; simp only [P2s.step, Except.ok.injEq, Prod.mk.injEq] at h; exact h.2.symm
+  | .ok (some d) =>
+    intro h
+    simp only [P2s.step] at h
+    repeat' split at h
+    all_goals (cases h <;> rfl)
+
+theorem p2s_error_resets (chk : Bool) (s : Option (P2sU0 F)) (x : Err) :
+    P2s.step chk s (.error x) = .ok (none, .error x) ∧ P2s.get chk (none : Option (P2sU0 F)) = .ok (.ok none) :=
+  ⟨rfl, rfl⟩
+
 end S
 
 end Rrtk.Thm.C10
